@@ -359,16 +359,18 @@ PROPS["C15"] = {
         "GstProofs.C15.w1_sum", "GstProofs.C15.w1_reproduces", "GstProofs.C15.w1_nonneg",
         "GstProofs.C15.w2_sum", "GstProofs.C15.w2_reproduces", "GstProofs.C15.w2_nonneg",
         "GstProofs.C15.gram_symmetric", "GstProofs.C15.gram_quadratic_nonneg",
+        "GstProofs.C15.horner_eq", "GstProofs.C15.q_forms", "GstProofs.C15.polyM_comm", "GstProofs.C15.q_symm",
+        "GstProofs.C15.polyMat_toMatrix",
     ],
     "harnesses": ["vh_c15"],
     "level": "proof",
-    "technique": "Lean 4 theorems: barycentric weights of segments and triangles sum to one, reproduce affine functions and are non-negative inside the element (all non-degenerate elements, all points); Gram-type matrices are symmetric with a non-negative quadratic form (any size). Correspondence / certificates on the library: each row of the projection matrix (turbo meshes 1-3 D incl. rotated, explicit triangulations) is checked in exact arithmetic (weights >= 0, sum 1, coordinates reproduced, empty row outside); matrix-free precision operator vs assembled sparse matrix on random vectors; exact symmetric-positive-definite certificate of the assembled precision matrix; exact residual of the sparse Cholesky solve; SPDE kriging through Cholesky vs the iterative solver",
-    "level_text": "Partial proof: the projection weights' properties are theorems for 1-D and 2-D elements (3-D tetrahedra are exercised, not proved); symmetry / positivity of Gram forms is a theorem, that the library's precision matrix is of that form is certified per instance (exact LDLt); operator / solver agreements are differential runs on generated meshes and Matern models.",
+    "technique": "Lean 4 theorems: the two forms of the precision operator agree for every shift operator, polynomial and vector ((Lambda p(S) Lambda) v = Lambda Horner(p,S)(Lambda v), Mathlib matrices, any size), a symmetric S gives a symmetric Q, and the executable polynomial of the driver is the Mathlib one (bridge); barycentric weights of segments and triangles sum to one, reproduce affine functions and are non-negative inside the element (all non-degenerate elements, all points); Gram-type matrices are symmetric with a non-negative quadratic form (any size). Correspondence / certificates on the library: each row of the projection matrix (turbo meshes 1-3 D incl. rotated, explicit triangulations) is checked in exact arithmetic (weights >= 0, sum 1, coordinates reproduced, empty row outside); matrix-free precision operator vs assembled sparse matrix on random vectors; exact symmetric-positive-definite certificate of the assembled precision matrix; exact residual of the sparse Cholesky solve; SPDE kriging through Cholesky vs the iterative solver",
+    "level_text": "Partial proof: the equality of the explicit and matrix-free forms of the precision operator is a theorem for all sizes and degrees, and the library's assembled matrix Q and its matrix-free evaluation are compared with the model recomputed in exact arithmetic from the exported S, Lambda and coefficients (meshes up to 30 apices); the projection weights' properties are theorems for 1-D and 2-D elements (3-D tetrahedra are exercised, not proved); symmetry / positivity of Gram forms is a theorem, that the library's precision matrix is of that form is certified per instance (exact LDLt); operator / solver agreements are differential runs on generated meshes and Matern models.",
     "level_note": "Trusted: Lean kernel + 3 standard axioms; exact rational certificate checkers (LDLt, residual); the agreement Cholesky / iterative kriging is judged at 0.4 % of the largest estimate (the iterative solver stops at its own tolerance); log-likelihood through both solvers is compared at 3% (+0.03): known finding F78.",
     "rule": "per configuration: a turbo mesh (1-D, 2-D possibly rotated, 3-D; 3-6 nodes per axis) or an irregular triangulated strip; 12 points (2 outside) projected; a Matern model with nu + d/2 integer and anisotropic ranges: 3 random vectors through both precision operators, one linear solve with exact residual, SPD certificate (<= 40 apices); 8-15 data kriged through Cholesky and through the iterative solver. distinct = distinct request line",
     "trivial": lambda line: False,
     "trusted_base": TB_COMMON + ["exact LDLt / residual certificate checkers"],
-    "uncovered": ["tetrahedral weights (exercised only)", "multi-variable / multi-structure conditional operators", "meshes on the sphere"],
+    "uncovered": ["the finite-element assembly of S and Lambda from the mesh geometry (only symmetry is checked on the exported matrices)", "tetrahedral weights (exercised only)", "multi-variable / multi-structure conditional operators", "meshes on the sphere"],
     "assumptions": [],
 }
 
